@@ -44,6 +44,10 @@ def run(pid, path):
             uniq.append(r)
     if pid == "C08" and uniq and "cvrs" in uniq[0] and "maxCards" in uniq[0]:
         mod = "Trace_Phantoms"
+    elif uniq and uniq[0].get("act") == "prep":
+        mod = "Trace_PollRun"
+    elif uniq and uniq[0].get("act") == "phantoms":
+        mod = "Trace_AuditRun"
     else:
         mod = TRACE_MODULE[pid]
     rejects, stats = core.validate_traces(mod, uniq, cfg_consts=CONSTS.get(mod, ""), batches=1)
